@@ -90,6 +90,11 @@ func NewParameterPool[T any](
 				"failed to persist generated parameter: [%w]",
 				err,
 			)
+			// There is nothing to add to the pool when the parameter could
+			// not be persisted: the persistence layer returns no entry in
+			// that case and a nil element in the pool would make GetNow hand
+			// a nil entry to Delete and return a nil parameter.
+			return
 		}
 
 		select {
